@@ -380,8 +380,9 @@ class VectorialGetItem(Contract):
     name = f"{VPN}.__getitem__"
     prop = ("C07",)
     top_level = True
-    cases = ("key-vector", "name")
-    descr = ("indexing a vectorial group by a vector of names gives, element by element, the value of the member named - the same as "
+    cases = ("key-vector", "name", "enum-array-key")
+    descr = ("indexing a vectorial group by a vector of names (or by an encoded array of an enumeration whose members bear those names, "
+             "declared in any order) gives, element by element, the value of the member named - the same as "
              "reading that member alone; a name that is no member's raises ParameterNotFoundError; a plain name gives the member")
     inline = (f"{VPN}.__getattr__", f"{VPN}.__init__")
 
@@ -392,7 +393,25 @@ class VectorialGetItem(Contract):
         node = Obj(I.resolve_qualified(VPN), {"vector": vec, "_name": "benefit", "_instant_str": "2015-01-01"}, label="vectorial")
         keys = KeyCodes(ctx)
         ctx.ghost["keys"] = keys
-        return {"self": node, "key": keys.array if case == "key-vector" else ZONES[1], "__vals": vals, "__keys": keys, "__case": case}
+        key = keys.array if case == "key-vector" else ZONES[1]
+        if case == "enum-array-key":
+            # an enumeration declaring the members in an order that is not the alphabetical one; the key holds member indices
+            from pyvc.values import EnumMember
+            base = I.resolve_qualified("openfisca_core.indexed_enums.enum.Enum")
+            enum = ClassVal("Zone", None, [base], {})
+            declared = (ZONES[1], ZONES[2], ZONES[0])
+            enum.enum_members = {nm: EnumMember(enum, nm, "value of " + nm, k) for k, nm in enumerate(declared)}
+            earr = I.resolve_qualified("openfisca_core.indexed_enums.enum_array.EnumArray")
+            IDX = z3.Function(ctx.fresh_name("MEMBER_INDEX"), z3.IntSort(), z3.IntSort())
+            i = z3.Int("i_idx")
+            ctx.assume(z3.ForAll([i], z3.And(IDX(i) >= 0, IDX(i) < 3), patterns=[IDX(i)]))
+            # the name designated by index k is declared[k]: its code among the sorted ZONES
+            code_of = [ZONES.index(nm) for nm in declared]
+            ctx.assume(z3.ForAll([i], keys.CODE(i) == z3.If(IDX(i) == 0, code_of[0], z3.If(IDX(i) == 1, code_of[1], code_of[2])), patterns=[keys.CODE(i)]))
+            key = nparr.NArr(keys.L, lambda j: Sym(IDX(B._z(j))), "uint8", "encoded-keys")
+            key.cls_override = earr
+            key.attrs["possible_values"] = enum
+        return {"self": node, "key": key, "__vals": vals, "__keys": keys, "__case": case}
 
     @staticmethod
     def local_contracts():
